@@ -85,16 +85,16 @@ func TestVX_SM2Cold(t *testing.T) {
 	if os.Getenv("VX_PART") == "cold-concurrent" {
 		prop, part = "C17", "cold-concurrent"
 	}
-	r := vx.Begin(prop, part, "each entry point of package sm2 (TestPrivateKey, CheckOnCurve on G / (0,0) / a public key, DerivePublic, GenerateKey, SignHashed, VerifyHashed valid and forged, ZA, Sign, Verify) as the FIRST use of the library in a fresh process - part cold-start: alone; part cold-concurrent: by 8 goroutines released together (spin barrier) in 6 (thorough 30) fresh processes per entry, also under the race detector; oracle sm2ref")
+	r := vx.Begin(prop, part, "each entry point of package sm2 (TestPrivateKey, CheckOnCurve on G / (0,0) / a public key, DerivePublic, GenerateKey, SignHashed, VerifyHashed valid and forged, ZA, Sign, Verify) as the FIRST use of the library in a fresh process - part cold-start: alone; part cold-concurrent: by 8 goroutines released together (spin barrier) in 3 (thorough 20) fresh processes per entry, also under the race detector; oracle sm2ref")
 	defer r.End()
 	selfCheck()
 	if part == "cold-start" {
 		vx.ColdCheck(r, "TestVX_SM2Cold", entries, want, 1, 1)
 		return
 	}
-	procs := 6
+	procs := 3
 	if vx.Thorough() {
-		procs = 30
+		procs = 20
 	}
 	os.Setenv("VX_COLD_ONLY_CONC", "1")
 	vx.ColdCheck(r, "TestVX_SM2Cold", entries, want, 8, procs)
